@@ -383,7 +383,7 @@ var solvers = []solverSpec{
 		return []string{"z3", fmt.Sprintf("rlimit=%d", t*rlimitPerSecond), fmt.Sprintf("-T:%d", t*12), f}
 	}},
 	{"cvc5", func(f string, t int) []string {
-		return []string{"cvc5", "--dt-nested-rec", fmt.Sprintf("--rlimit=%d", t*300000), fmt.Sprintf("--tlimit=%d", t*12*1000), f}
+		return []string{"cvc5", "--dt-nested-rec", fmt.Sprintf("--rlimit=%d", t*300000), fmt.Sprintf("--tlimit=%d", t*3*1000), f}
 	}},
 }
 
